@@ -19,6 +19,15 @@ Check names are "<method>/<clause>":
   whole-network[-linkattr]         P = Q = all nodes reproduces the single-network measure
   wrapper                          CoupledClimateNetwork wrapper == spec on (nodes_1, nodes_2)
 
+Family (g) "large cross degree" (networks of a few hundred nodes in which first-group nodes have
+126..301 and |Q|-1, |Q| neighbours in the second group, or every first-group node has such a
+degree and there are > 65535 cross links; directed and undirected; oracle:
+specs/interacting_block_spec.py, the same definitions vectorised on int64 / float64 blocks)
+evaluates the same clauses under their own names
+  <method>/large-cross-degree               (definition / subblock clause)
+  <method>/large-cross-degree-<clause>      (linkattr, unsorted, sparse-twin, arg-symmetry,
+                                             whole-network, equal-weight, ...)
+
 Known finding #19 is confined to exactly two names:
   nsi_cross_average_path_length/definition      (pairs whose total weights W_P != W_Q)
   nsi_cross_average_path_length/arg-symmetry    (pairs whose total weights W_P != W_Q)
@@ -896,46 +905,8 @@ def gen_large(gen):
             "kout": [int(x) for x in kout], "kin": [int(x) for x in kin]}
 
 
-def check_huge_sparse(col, gen, wit):
-    """Cross degree above 32767: only the sparse sub-block extraction can be evaluated within
-    the memory bound (every other method starts from the dense N x N adjacency matrix).
-    Star-like network given as a sparse matrix: hub 0 linked to k > 32767 nodes of Q."""
-    import scipy.sparse as sps
-    from pyunicorn.core import InteractingNetworks
-    rng = np.random.RandomState(gen["gseed"])
-    k = 32768 + int(rng.randint(1, 300))
-    n2 = k + int(rng.randint(5, 60))
-    N = 3 + n2
-    Q = np.arange(3, N)
-    nb = rng.choice(Q, size=k, replace=False)
-    rows = np.concatenate([np.zeros(k, dtype=np.int64), np.full(5, 1), np.full(1, 2)])
-    cols = np.concatenate([nb, rng.choice(Q, size=5, replace=False), rng.choice(Q, size=1)])
-    ring = Q[:-1], Q[1:]                                   # a path among the Q-nodes
-    rows = np.concatenate([rows, ring[0]])
-    cols = np.concatenate([cols, ring[1]])
-    M = sps.coo_matrix((np.ones(len(rows), dtype=np.int8), (rows, cols)), shape=(N, N))
-    M = ((M + M.T) > 0).astype(np.int8).tocsc()
-    with quiet():
-        net = InteractingNetworks(adjacency=M, directed=False, silence_level=3)
-        P = [0, 1, 2]
-        Ql = [int(x) for x in rng.permutation(Q)]
-        exp = np.zeros((3, n2), dtype=np.int64)
-        pos = {q: j for j, q in enumerate(Ql)}
-        for r_, c_ in zip(rows[:k + 6], cols[:k + 6]):
-            exp[int(r_), pos[int(c_)]] = 1
-        res = col.call(net.cross_adjacency_sparse, P, Ql)
-        col.expect("cross_adjacency_sparse/subblock-above-32767", wit, res, exp)
-        if res[0] == "ok":
-            col.expect("cross_adjacency_sparse/definition-above-32767-row-sums", wit,
-                       ("ok", np.asarray(res[1]).sum(axis=1, dtype=np.int64)), [k, 5, 1])
-
-
 def run_large_part(col, gen, part, P=None, Q=None):
     """One part of one network of the family; returns (witness, summary)."""
-    if part == "huge-sparse":
-        wit = {"kind": "large", "gen": gen, "part": part}
-        check_huge_sparse(col, gen, wit)
-        return wit, {"part": part}
     g = gen_large(gen)
     P = g["P"] if P is None else [int(x) for x in P]
     Q = g["Q"] if Q is None else [int(x) for x in Q]
@@ -1029,8 +1000,6 @@ def large_tasks(tier, seed):
         for m in SPARSE_TWINS:
             for k in pick[m]:
                 tasks.append({"kind": "large", "gen": gen, "part": "sparse:" + m, "P": [by_deg[k]], "cost": 4})
-    if not quick:
-        tasks.append({"kind": "large", "gen": {"gseed": 100003 * seed + 77}, "part": "huge-sparse", "cost": 5})
     return tasks
 
 
@@ -1211,6 +1180,19 @@ SCOPE = (
     "length / strength; whole-network limit P=Q=V in sorted and random order for every graph; "
     "(f) CoupledClimateNetwork built from two GeoGrids and a two-valued similarity matrix thresholded at 0.5: all "
     "graphs n<=4 (thorough n<=5) x all layer splits after random relabelling, random graphs n=5..9. "
+    "(g) large cross degrees (check names <method>/large-cross-degree[-clause]; oracle = the same definitions "
+    "vectorised with NumPy on int64/float64 blocks, cross-checked against the pure-Python oracle on 24 small graphs "
+    "at start-up): seeded networks with N=330..665 nodes, node numbers randomly permuted; layout 1: first group = "
+    "one node each of cross degree 126,127,128,254,255,256,257,258,299,300,301,|Q|-1,|Q| plus nodes of degree 0, 1, "
+    "2..6, second group |Q|=305..430 with internal link density .05...1 (up to > 65535 triangles at one node); "
+    "layout 2: 310..340 first-group nodes with cross degrees cycling through 126,127,128,254,255,256,257,258,|Q|, "
+    "|Q|=262..285, > 65535 cross links and (dense variants) > 32767 internal links; sparse Bernoulli background "
+    "links (p=.01...06) to/among 8..39 further nodes; directed (prescribed cross out- and in-degrees) and "
+    "undirected; float weights or integer weights with W_P == W_Q; a random link attribute on the sparser layout-1 "
+    "networks. Per network: every one-list method on P and on Q, every two-list method on (P,Q) and (Q,P), the "
+    "whole-network limit in a random order; the pure-Python `_sparse` clustering twins on first lists of one node "
+    "of prescribed cross degree (quick: one node of degree >= 256 per twin and network; thorough: every degree >= 126, "
+    "and the 11 nodes of degree <= 258 together for the transitivity twin). Quick: 4 + 2 networks, thorough 8 + 5. "
     "Tolerance rtol 1e-9 / atol 1e-12 (all kernels float64); grid distances (float32) atol 5e-4."
 )
 RULE = (
@@ -1220,7 +1202,10 @@ RULE = (
     "contract clause evaluated (method x clause x case). Where the definition is 0/0 (no finite cross path, "
     "single-node internal density, n.s.i. cross transitivity without cross links, ...) nothing is demanded "
     "except that no exception other than ZeroDivisionError is raised. Known finding #19 is confined to the "
-    "check names nsi_cross_average_path_length/definition and /arg-symmetry (pairs with W_P != W_Q)."
+    "check names nsi_cross_average_path_length/definition and /arg-symmetry (pairs with W_P != W_Q). "
+    "Large-cross-degree family: a case is (generator record, part) with part = pair (all methods on P, Q, (P,Q), "
+    "(Q,P)), whole, or one `_sparse` twin on one first list; every such case has a first-list node with more "
+    "than 256 cross neighbours and is counted as non-trivial."
 )
 
 
@@ -1339,6 +1324,12 @@ def main():
     rep.skip("subnetwork() / CoupledClimateNetwork.network_i() of a one-node list raise ZeroDivisionError in the "
              "Network constructor (link density 0/0): outside C11, exercised for >= 2 nodes only")
     rep.skip("link attributes are not used on graphs without links (igraph cannot hold the attribute)")
+    rep.skip("large-cross-degree family: cross degrees above 32767 are not reached -- the Network constructor "
+             "itself calls degree(), which builds the dense N x N adjacency (N >= 32769: > 4 GB), beyond the 1 GB "
+             "bound of this harness; the `_sparse` whole-network clauses and the `_sparse` twins on long first lists "
+             "are left out there (O(|P| |Q|^2) sparse look-ups: ~1-3 s per first-list node); "
+             "nsi_cross_average_path_length is evaluated there only for W_P == W_Q (integer-weight networks) and "
+             "in the whole-network limit, so that known finding #19 stays confined to its two check names")
     rep.skip("whole-network limit for closeness / n.s.i. closeness / n.s.i. average path length on connected "
              "graphs only and for transitivity on graphs with a connected triple (the single-network methods "
              "use other conventions for unconnected pairs / return nan)")
